@@ -35,6 +35,8 @@ type GenConfig struct {
 	// known to mishandle several of these shapes, so checks draw them in a
 	// fraction of the models only and tag their signatures.
 	NestedCollections bool
+	// NamedUnions: declare a named union of the variant structs and refer to it
+	NamedUnions bool
 	// ExplicitMappings: render explicit OpenAPI discriminator mappings (cog
 	// keeps their values as "#/components/schemas/X" strings: known finding)
 	ExplicitMappings bool
@@ -66,6 +68,7 @@ type mgen struct {
 	// named collection definitions: name -> kind ("array" | "map")
 	collections map[string]string
 	collNames   []string
+	namedUnion  string
 	disc        string
 	// sharedUnion: one union of scalars used by several fields of the model
 	sharedUnion *T
@@ -116,6 +119,10 @@ func Draw(t *rapid.T, cfg GenConfig) *Model {
 		g.collNames = append(g.collNames, name)
 	}
 
+	if cfg.NamedUnions && len(g.variants) >= 2 {
+		g.namedUnion = pickDistinct(t, []string{"Shape", "Element"}, 1, "namedunion", taken)[0]
+	}
+
 	// enums first (so that defaults can pick members)
 	enumDefs := map[string]T{}
 	for _, name := range g.enums {
@@ -137,6 +144,9 @@ func Draw(t *rapid.T, cfg GenConfig) *Model {
 	}
 	for _, name := range g.enums {
 		g.m.Defs = append(g.m.Defs, Def{Name: name, Type: enumDefs[name]})
+	}
+	if g.namedUnion != "" {
+		g.m.Defs = append(g.m.Defs, Def{Name: g.namedUnion, Type: T{Kind: KUStructs, Refs: append([]string{}, g.variants...), Discriminator: g.disc}})
 	}
 	for _, name := range g.collNames {
 		var elem T
@@ -226,7 +236,7 @@ var classList = []string{
 	"default_float", "default_list", "array_nested", "array_union_structs",
 	"ref_named_collection", "map_nested", "array_named_collection",
 	"union_scalars_shared", "union_scalars_shared_optional", "map_array_scalar", "map_array_struct", "array_map_struct",
-	"nullable_int_plain",
+	"nullable_int_plain", "ref_named_union", "array_named_union", "map_named_union", "array_nested_union_structs",
 	"default_int_wide", "default_list_int", "default_list_empty", "default_nullable", "default_union", "default_map",
 	"default_int_bounded", "default_float_bounded",
 }
@@ -338,7 +348,7 @@ func (g *mgen) bounded(kind string) T {
 // format cannot express it or the model lacks the definitions it needs.
 var nestedCollectionClasses = map[string]bool{
 	"array_nested": true, "map_nested": true, "map_array_scalar": true, "map_array_struct": true, "array_map_struct": true,
-	"ref_named_collection": true, "array_named_collection": true,
+	"ref_named_collection": true, "array_named_collection": true, "array_nested_union_structs": true,
 }
 
 func (g *mgen) classType(c string, depth int) (T, bool) {
@@ -351,7 +361,8 @@ func (g *mgen) classType(c string, depth int) (T, bool) {
 	// disjunction inside a list and a pattern constraint
 	if g.cur >= len(g.structs) {
 		switch c {
-		case "array_ref", "map_ref", "nullable_ref", "ref", "ref_recursive", "array_union_structs", "union_structs", "ref_named_collection", "array_named_collection":
+		case "array_ref", "map_ref", "nullable_ref", "ref", "ref_recursive", "array_union_structs", "union_structs", "ref_named_collection", "array_named_collection",
+			"ref_named_union", "array_named_union", "map_named_union", "array_nested_union_structs":
 			return T{}, false
 		}
 	}
@@ -513,6 +524,26 @@ func (g *mgen) classType(c string, depth int) (T, bool) {
 	case "default_list":
 		e := T{Kind: KString}
 		t = T{Kind: KArray, Elem: &e, Default: Raw(rapid.SampledFrom([][]string{{"a", "b"}, {"x"}}).Draw(g.t, "dlist"))}
+	case "ref_named_union", "array_named_union", "map_named_union":
+		if g.namedUnion == "" {
+			return T{}, false
+		}
+		r := T{Kind: KRef, Ref: g.namedUnion}
+		switch c {
+		case "array_named_union":
+			t = T{Kind: KArray, Elem: &r}
+		case "map_named_union":
+			t = T{Kind: KMap, Elem: &r}
+		default:
+			t = r
+		}
+	case "array_nested_union_structs":
+		if len(g.variants) < 2 {
+			return T{}, false
+		}
+		u := g.unionStructs()
+		e := T{Kind: KArray, Elem: &u}
+		t = T{Kind: KArray, Elem: &e}
 	case "default_int_wide":
 		t = T{Kind: KInt, Default: Raw(rapid.SampledFrom([]int64{0, -1 << 40, 1 << 53, (1 << 53) + 1, 1<<62 + 3, 2147483648}).Draw(g.t, "dintwide"))}
 	case "default_list_int":
